@@ -112,9 +112,12 @@ func runSolver(s Solver, file string, timeoutS, seed int) (status string, out st
 	cmd.Stdout = &buf
 	cmd.Stderr = &buf
 	t0 := time.Now()
-	_ = cmd.Run()
+	runErr := cmd.Run()
 	dur = time.Since(t0).Seconds()
 	out = buf.String()
+	if strings.TrimSpace(out) == "" && runErr != nil {
+		out = "(no output) exec: " + runErr.Error()
+	}
 	first := strings.TrimSpace(strings.SplitN(out, "\n", 2)[0])
 	switch first {
 	case "unsat", "sat", "unknown":
@@ -133,6 +136,21 @@ func runSolver(s Solver, file string, timeoutS, seed int) (status string, out st
 
 // discharge decides one obligation with the solver portfolio.
 func (db *ContractDB) discharge(vc *VC, ob *Obligation, cfg *solveCfg) {
+	db.discharge1(vc, ob, cfg)
+	if ob.Status == "error" && !strings.HasPrefix(ob.Model, "solver disagreement") {
+		// no solver of the portfolio produced any verdict: the machine, not the
+		// obligation (process table or memory exhausted); wait and try once more
+		time.Sleep(3 * time.Second)
+		first := ob.Model
+		ob.Status, ob.Solver, ob.Model = "", "", ""
+		db.discharge1(vc, ob, cfg)
+		if ob.Status == "error" {
+			ob.Model = first + "\n(second attempt) " + ob.Model
+		}
+	}
+}
+
+func (db *ContractDB) discharge1(vc *VC, ob *Obligation, cfg *solveCfg) {
 	file := filepath.Join(cfg.dir, sanitizeFile(ob.Name)+".smt2")
 	_ = os.WriteFile(file, []byte(db.queryText(vc, ob, false)), 0o644)
 	var total float64
